@@ -30,6 +30,11 @@ type glueWorld struct {
 	lgs  [3]*log.Logger
 }
 
+// plainWriter: an io.Writer with no other method
+type plainWriter struct{ b *bytes.Buffer }
+
+func (p plainWriter) Write(q []byte) (int, error) { return p.b.Write(q) }
+
 func newGlueWorld() *glueWorld {
 	w := &glueWorld{}
 	w.mem, w.io = tinycpm.New()
@@ -68,7 +73,13 @@ func glueOp(w **glueWorld, f []string) (res string) {
 		g.io.Out(uint8(h(f[1])), uint8(h(f[2])))
 		return "ok"
 	case "stdout":
-		g.io.SetStdout(&g.outs[h(f[1])%3])
+		// writers 0 and 2 are *bytes.Buffer (which also has WriteByte, WriteString, ...); writer 1 offers Write and nothing else
+		k := h(f[1]) % 3
+		if k == 1 {
+			g.io.SetStdout(plainWriter{&g.outs[1]})
+		} else {
+			g.io.SetStdout(&g.outs[k])
+		}
 		return "ok"
 	case "warnl":
 		g.io.SetWarnLogger(g.lgs[h(f[1])%3])
